@@ -10,6 +10,8 @@ import Ptn.C19.ParentLeg
 import Ptn.C19.ValueRec
 import Ptn.C19.ValueChain
 import Ptn.C19.ValuePad
+import Ptn.C19.ValueShift
+import Ptn.C19.ValueSpecial
 /-! Property theorems for C19. Only property theorems and non-vacuity examples live here.  The leg-level
 theorems are core Lean; the value-level theorems at the end (`from_tensor_value`, `mps_chain_value`,
 `pad_bond_value`) rest on `Ptn/Common/Einsum*.lean` (single Mathlib modules). -/
@@ -883,5 +885,191 @@ example : (Expr.pairLegs [((0 : Nat), (1 : Nat))]).Nodup ∧
   refine ⟨_, List.mem_cons_self, ?_⟩
   have : ¬ τ 0 < 2 := by simpa using h1
   simp [this]
+
+/-! ### star / fork / binary constructors, product states, front padding (builder B34) -/
+
+/-- **Value of a star network.**  For every centre shape and **every accepted sequence** of `add_chain_node` calls
+(the `st` of `star_structure`), all input tensors `T id` (functions of the index list in the order of the axes of the
+array handed in), all dimensions, every commutative semiring:
+* every node tensor the library holds (`gModelLeaf`: input transposed by the model's leg permutation, leg `k`
+  labelled by the input axis sitting there) IS the input tensor as a labelled tensor (`gSiteLeaf`);
+* the binding record read off the state the way the library does (`gRecord`: dict order, parent's leg
+  `neighbour_index(child)` ~ child's leg 0) is one pair per call, in call order: `opPair` = (parent's leg at the
+  position of the new node among the parent's neighbours in the closed form `nodeG`, (new node, axis 0));
+* the network evaluates to `Σ_{one common index per call's bond} Π_{centre and every call} T_id[axes in input order]`. -/
+theorem star_value {R : Type} [CommSemiring R] (cshape : List Nat) (calls : List (Nat × List Nat)) (st : Star)
+    (h : starRun cshape calls = some st) (dim : GLeg StarId → Nat) (T : StarId → List Nat → R) :
+    (∀ x ∈ st.nodes, gModelLeaf T x = gSiteLeaf T x.id x.dims.length) ∧
+    gRecord st.nodes = (starOps calls).map (opPair .center cshape (starOps calls)) ∧
+    ∀ σ, netValue dim (gRecord st.nodes) (st.nodes.map (gModelLeaf T)) σ =
+      sumPairs dim ((starOps calls).map (opPair .center cshape (starOps calls)))
+        (fun τ => prodL ((StarId.center :: (starOps calls).map (·.cid)).map fun i =>
+          T i ((List.range (shapeOf .center cshape (starOps calls) i).length).map fun a => τ (i, a)))) σ := by
+  have hinv := star_run_inv cshape calls [] (starInit cshape) st (starInv_init cshape) h
+  rw [List.nil_append] at hinv
+  obtain ⟨hn, hg, _⟩ := hinv
+  rw [hn]
+  exact closedG_value .center cshape (starOps calls) hg dim T
+
+/-- a centre with two chains, three calls: record = (centre leg 0 ~ chain00 leg 0), (centre leg 1 ~ chain10 leg 0),
+(chain00 leg 1 ~ chain01 leg 0) -/
+example : (starRun [2, 3, 2] [(0, [2, 3, 2]), (1, [3, 2]), (0, [3, 2])]).map (fun st => gRecord st.nodes) = some
+    [((.center, 0), (.chain 0 0, 0)), ((.center, 1), (.chain 1 0, 0)), ((.chain 0 0, 1), (.chain 0 1, 0))] := by
+  decide
+
+/-- **Value of a fork network**: the same three statements for every accepted sequence of `add_main_chain_node` /
+`add_sub_chain_node` calls (`rs` = shape of the root `main 0`, `rest` = the calls after the first). -/
+theorem fork_value {R : Type} [CommSemiring R] (calls : List ForkCall) (st : Fork) (h : forkRun calls = some st)
+    (dim : GLeg ForkId → Nat) (T : ForkId → List Nat → R) :
+    (calls = [] ∧ st = forkInit) ∨
+    ∃ rs rest, calls = ForkCall.main rs :: rest ∧
+      (∀ x ∈ st.nodes, gModelLeaf T x = gSiteLeaf T x.id x.dims.length) ∧
+      gRecord st.nodes = (forkOps rest).map (opPair (.main 0) rs (forkOps rest)) ∧
+      ∀ σ, netValue dim (gRecord st.nodes) (st.nodes.map (gModelLeaf T)) σ =
+        sumPairs dim ((forkOps rest).map (opPair (.main 0) rs (forkOps rest)))
+          (fun τ => prodL ((ForkId.main 0 :: (forkOps rest).map (·.cid)).map fun i =>
+            T i ((List.range (shapeOf (.main 0) rs (forkOps rest) i).length).map fun a => τ (i, a)))) σ := by
+  rcases fork_first calls st h with h0 | ⟨rs, rest, hc, hrun, hinit⟩
+  · exact Or.inl h0
+  · right
+    have hinv := fork_run_inv rs rest [] _ st hinit hrun
+    rw [List.nil_append] at hinv
+    obtain ⟨hn, hg, _⟩ := hinv
+    refine ⟨rs, rest, hc, ?_⟩
+    rw [hn]
+    exact closedG_value (.main 0) rs (forkOps rest) hg dim T
+
+example : (forkRun [.main [2, 3], .sub 0 [2, 2], .main [3, 2, 2]]).map (fun st => gRecord st.nodes) = some
+    [((.main 0, 0), (.sub 0 0, 0)), ((.main 0, 1), (.main 1, 0))] := by decide
+
+/-- **Binary tree, value level (partial).**  For every `nphys ≥ 2`, `bd ≥ 1`, `d`: the tree `generate_binary_ttns`
+returns (`binary_structure`) holds every tensor untransposed (node tensor = input tensor as a labelled tensor) and
+evaluates to the sum over its record `gRecord` of the product of all node tensors.  Partial: the record is the
+model function `gRecord` of the final state, not a closed form in the heap numbering
+(`(parent (g-1)/2, leg [h>0] + [g even]) ~ (g, 0)` is what the instance below shows; not proved for all sizes). -/
+theorem binary_value_partial {R : Type} [CommSemiring R] (nphys bd d : Nat) (hn : 2 ≤ nphys) (hb : 1 ≤ bd)
+    (dim : GLeg BinId → Nat) (T : BinId → List Nat → R) :
+    binGenerate nphys bd d = some (binFinal nphys bd d) ∧
+    (∀ x ∈ binFinal nphys bd d, gModelLeaf T x = gSiteLeaf T x.id x.dims.length) ∧
+    ∀ σ, netValue dim (gRecord (binFinal nphys bd d)) ((binFinal nphys bd d).map (gModelLeaf T)) σ =
+      sumPairs dim (gRecord (binFinal nphys bd d))
+        (fun τ => prodL ((binFinal nphys bd d).map fun x =>
+          T x.id ((List.range x.dims.length).map fun a => τ (x.id, a)))) σ := by
+  have hleaf : ∀ x ∈ binFinal nphys bd d, gModelLeaf T x = gSiteLeaf T x.id x.dims.length := by
+    intro x hx
+    apply gModelLeaf_ident
+    simp only [binFinal, List.mem_append, List.mem_map] at hx
+    rcases hx with ⟨h, _, rfl⟩ | ⟨k, _, rfl⟩ <;> rfl
+  refine ⟨(binary_structure nphys bd d hn hb).1, hleaf, fun σ => ?_⟩
+  rw [List.map_congr_left hleaf]
+  unfold netValue
+  simp only [List.map_map]
+  rfl
+
+example : (2 : Nat) ≤ 3 ∧ (1 : Nat) ≤ 2 ∧ gRecord (binFinal 3 2 3) =
+    [((.virt 0 0, 0), (.virt 1 0, 0)), ((.virt 0 0, 1), (.phys 0, 0)),
+     ((.virt 1 0, 1), (.phys 1, 0)), ((.virt 1 0, 2), (.phys 2, 0))] := by decide
+
+/-- **Product states.**  A network (any shape: any binding record with distinct legs, positive bond dimensions - also
+zero-padded, larger ones) in which every node tensor is `v_i[open legs] · (1 where all of the node's bond indices
+are 0, 0 elsewhere)` (`deltaLeaf bl v`; `bl` = the node's bond legs), every bond has at least one end in such a
+node and the factors `v_i` do not read bond legs, has the value `Π_i v_i[σ]`: the product state. -/
+theorem constant_product_state_value {L : Type} [DecidableEq L] {R : Type} [CommSemiring R] (dim : L → Nat)
+    (ps : List (L × L)) (hnd : (Expr.pairLegs ps).Nodup) (hpos : ∀ p ∈ ps, 0 < dim p.1)
+    (nodes : List (List L × (Asg L → R)))
+    (hb : ∀ nd ∈ nodes, ∀ l ∈ nd.1, l ∈ Expr.pairLegs ps)
+    (hcov : ∀ p ∈ ps, ∃ nd ∈ nodes, p.1 ∈ nd.1 ∨ p.2 ∈ nd.1)
+    (hv : ∀ nd ∈ nodes, DependsOn (· ∉ Expr.pairLegs ps) nd.2) (σ : Asg L) :
+    netValue dim ps (nodes.map fun nd => deltaLeaf nd.1 nd.2) σ = prodL (nodes.map fun nd => nd.2 σ) := by
+  unfold netValue
+  rw [sumPairs_delta dim ps hnd hpos]
+  · simp only [List.map_map]
+    congr 1
+    apply List.map_congr_left
+    intro nd hnd'
+    simp only [Function.comp, deltaLeaf]
+    have hall : (nd.1.all fun l => zeroOn (Expr.pairLegs ps) σ l == 0) = true := by
+      rw [List.all_eq_true]
+      intro l hl
+      simp [zeroOn, hb nd hnd' l hl]
+    rw [if_pos hall]
+    apply hv nd hnd'
+    intro l hl
+    simp [zeroOn, hl]
+  · rintro τ ⟨p, hp, h1, h2⟩
+    obtain ⟨nd, hnd', hend⟩ := hcov p hp
+    apply prodL_eq_zero
+    simp only [List.map_map, List.mem_map]
+    refine ⟨nd, hnd', ?_⟩
+    simp only [Function.comp, deltaLeaf]
+    have hall : ¬ (nd.1.all fun l => τ l == 0) = true := by
+      rw [List.all_eq_true]
+      intro hall
+      rcases hend with he | he
+      · have := hall _ he; simp at this; exact h1 this
+      · have := hall _ he; simp at this; rw [h2] at this; exact h1 this
+    rw [if_neg hall]
+
+/-- three nodes on a chain `0 -(1,2)- 1 -(3,4)- 2`, bond dimensions 3 and 1 (the first zero-padded), open legs 10, 11, 12 -/
+example : (Expr.pairLegs [((1 : Nat), (2 : Nat)), (3, 4)]).Nodup ∧
+    (∀ p ∈ [((1 : Nat), (2 : Nat)), (3, 4)], 0 < (fun l : Nat => if l ≤ 2 then 3 else 1) p.1) ∧
+    (∀ nd ∈ [([1], fun τ : Asg Nat => (τ 10 : Int) + 2), ([2, 3], fun τ => (τ 11 : Int) + 3), ([4], fun τ => (τ 12 : Int) + 5)],
+      ∀ l ∈ nd.1, l ∈ Expr.pairLegs [((1 : Nat), (2 : Nat)), (3, 4)]) ∧
+    (∀ p ∈ [((1 : Nat), (2 : Nat)), (3, 4)],
+      ∃ nd ∈ [([1], fun τ : Asg Nat => (τ 10 : Int) + 2), ([2, 3], fun τ => (τ 11 : Int) + 3), ([4], fun τ => (τ 12 : Int) + 5)],
+        p.1 ∈ nd.1 ∨ p.2 ∈ nd.1) ∧
+    (∀ nd ∈ [([1], fun τ : Asg Nat => (τ 10 : Int) + 2), ([2, 3], fun τ => (τ 11 : Int) + 3), ([4], fun τ => (τ 12 : Int) + 5)],
+      DependsOn (· ∉ Expr.pairLegs [((1 : Nat), (2 : Nat)), (3, 4)]) nd.2) := by
+  refine ⟨by decide, by decide, by decide, by decide, ?_⟩
+  intro nd hnd σ τ h
+  simp only [List.mem_cons, List.not_mem_nil, or_false] at hnd
+  rcases hnd with rfl | rfl | rfl
+  · simp only; rw [h 10 (by decide)]
+  · simp only; rw [h 11 (by decide)]
+  · simp only; rw [h 12 (by decide)]
+
+/-- **Zero padding at the FRONT of bonds changes nothing.**  Every bond of the record grows from `dim` to `e + dim`
+index values, the NEW values first (`np.pad(.., (e, 0))`, the same `e` at both ends of a bond); wherever the common
+index of a bond is one of the new values some padded leaf vanishes (zeros on ONE side suffice), and every padded leaf
+read at indices moved up by `e` on the bond legs is the original leaf: the padded network has the value of the
+original one. -/
+theorem pad_front_value {L : Type} [DecidableEq L] {R : Type} [CommSemiring R] (dim dim' e : L → Nat)
+    (ps : List (L × L)) (leaves leaves' : List (Asg L → R)) (hnd : (Expr.pairLegs ps).Nodup)
+    (hdim : ∀ p ∈ ps, dim' p.1 = e p.1 + dim p.1) (he : ∀ p ∈ ps, e p.2 = e p.1)
+    (hz : ∀ p ∈ ps, ∀ τ : Asg L, τ p.1 < e p.1 → τ p.2 = τ p.1 → ∃ g ∈ leaves', g τ = 0)
+    (hs : List.Forall₂ (fun g' g => ∀ τ : Asg L, g' (shiftOn (Expr.pairLegs ps) e τ) = g τ) leaves' leaves)
+    (σ : Asg L) : netValue dim' ps leaves' σ = netValue dim ps leaves σ := by
+  unfold netValue
+  apply sumPairs_pad_front dim dim' e ps hnd hdim he
+  · rintro τ ⟨p, hp, h1, h2⟩
+    obtain ⟨g, hg, hg0⟩ := hz p hp τ h1 h2
+    apply prodL_eq_zero
+    exact List.mem_map.2 ⟨g, hg, hg0⟩
+  · intro τ
+    apply prodL_forall₂
+    clear hz
+    induction hs with
+    | nil => exact List.Forall₂.nil
+    | cons h _ ih => exact List.Forall₂.cons (h τ) ih
+
+/-- one bond `(0, 1)` padded from 2 to 1 + 2 at the front; the left tensor is zero in the padding, the right one not -/
+example : (Expr.pairLegs [((0 : Nat), (1 : Nat))]).Nodup ∧
+    (∀ p ∈ [((0 : Nat), (1 : Nat))], (fun _ : Nat => 3) p.1 = (fun _ : Nat => 1) p.1 + (fun _ : Nat => 2) p.1) ∧
+    (∀ p ∈ [((0 : Nat), (1 : Nat))], ∀ τ : Asg Nat, τ p.1 < (fun _ : Nat => 1) p.1 → τ p.2 = τ p.1 →
+      ∃ g ∈ [fun τ : Asg Nat => if τ 0 < 1 then 0 else (τ 0 - 1 : Nat) + 1 + (τ 2 : Int), fun τ => (τ 1 : Int) + 4], g τ = 0) ∧
+    List.Forall₂ (fun g' g => ∀ τ : Asg Nat, g' (shiftOn (Expr.pairLegs [((0 : Nat), (1 : Nat))]) (fun _ => 1) τ) = g τ)
+      [fun τ : Asg Nat => if τ 0 < 1 then 0 else (τ 0 - 1 : Nat) + 1 + (τ 2 : Int), fun τ => (τ 1 : Int) + 4]
+      [fun τ : Asg Nat => (τ 0 : Int) + 1 + τ 2, fun τ => (τ 1 : Int) + 5] := by
+  refine ⟨by decide, by simp, ?_, ?_⟩
+  · intro p hp τ h1 _
+    simp only [List.mem_singleton] at hp
+    subst hp
+    exact ⟨_, List.mem_cons_self, by simp only at h1 ⊢; rw [if_pos h1]⟩
+  · refine List.Forall₂.cons ?_ (List.Forall₂.cons ?_ List.Forall₂.nil)
+    · intro τ
+      simp [shiftOn, Expr.pairLegs]
+    · intro τ
+      simp [shiftOn, Expr.pairLegs]
+      omega
 
 end Ptn.C19
